@@ -72,6 +72,16 @@ func Build(name string) *Scenario {
 		}
 		sc.Monitors = append(sc.Monitors, monStreamPrefix, monCiphertextOnly, monExclusive, monIntruder)
 		sc.Final = append(sc.Final, finalTransfer, finalSessions)
+	case "rdv":
+		// C17 at the relay: the same consecutive sessions as "sess", judged
+		// only on the stream ids every handed-out connection uses.
+		sc.Rounds = 2
+		if v, ok := p["rounds"]; ok {
+			sc.Rounds, _ = strconv.Atoi(v)
+		}
+		sc.Round = Round{C2S: []int{10}, S2C: []int{20}, Closer: closer}
+		sc.Monitors = append(sc.Monitors, monRendezvous)
+		sc.Final = append(sc.Final, finalRendezvous)
 	default:
 		panic("unknown stack scenario " + name)
 	}
@@ -363,4 +373,106 @@ func finalSessions(w *World, x *vrt.Exec) {
 		}
 		w.reached["intruder-rejected"] = true
 	}
+}
+
+// monRendezvous (C17): every connection either side is handed uses two
+// different streams for its two directions, and whenever the two sides are
+// connected to the same pair of streams, one's send stream is the other's
+// receive stream.
+func monRendezvous(w *World) {
+	w.mu.Lock()
+	defer w.mu.Unlock()
+	var zero [64]byte
+	for _, l := range [][]*Session{w.sessC, w.sessS} {
+		for _, s := range l {
+			if s.Conn == nil || (s.SendSID == zero && s.RecvSID == zero) {
+				continue
+			}
+			w.reached["sids-seen"] = true
+			if s.SendSID == s.RecvSID {
+				w.fail("rendezvous/directions-share/"+s.Side,
+					"%s connection #%d sends and receives on the same stream %x…", s.Side, s.Index, s.SendSID[:4])
+				return
+			}
+		}
+	}
+	for _, c := range w.sessC {
+		for _, s := range w.sessS {
+			if c.Conn == nil || s.Conn == nil {
+				continue
+			}
+			// same unordered pair of streams, but not mirrored
+			if c.SendSID == s.SendSID && c.RecvSID == s.RecvSID {
+				w.fail("rendezvous/not-mirrored",
+					"client connection #%d and server connection #%d both send on %x… and both receive on %x…",
+					c.Index, s.Index, c.SendSID[:4], c.RecvSID[:4])
+				return
+			}
+		}
+	}
+}
+
+// finalRendezvous (C17): in a run without relay faults all wanted sessions
+// completed, every completed client session has a completed server session on
+// the mirrored streams, and after a version-2 pairing both sides have moved
+// to the same new pair of streams.
+func finalRendezvous(w *World, x *vrt.Exec) {
+	if len(w.findings) > 0 {
+		return
+	}
+	w.mu.Lock()
+	defer w.mu.Unlock()
+	if w.faults > 0 {
+		return
+	}
+	okC, okS := 0, 0
+	for _, c := range w.sessC {
+		if !c.Success {
+			continue
+		}
+		okC++
+		mirrored := false
+		for _, s := range w.sessS {
+			if s.Success && c.SendSID == s.RecvSID && c.RecvSID == s.SendSID {
+				mirrored = true
+			}
+		}
+		if !mirrored {
+			w.fail("rendezvous/sides-differ",
+				"client session #%d completed on streams (send %x…, recv %x…) that no completed server session mirrors",
+				c.Index, c.SendSID[:4], c.RecvSID[:4])
+			return
+		}
+	}
+	for _, s := range w.sessS {
+		if s.Success {
+			okS++
+		}
+	}
+	if okC < w.sc.Rounds || okS < w.sc.Rounds {
+		w.fail("rendezvous/sessions-do-not-meet",
+			"without any relay fault only %d client and %d server sessions of %d completed (%d dial and %d accept attempts): the two sides do not find each other",
+			okC, okS, w.sc.Rounds, len(w.sessC), len(w.sessS))
+		return
+	}
+	if w.sc.MaxVer >= 2 {
+		var first, last *Session
+		for _, c := range w.sessC {
+			if c.Success {
+				if first == nil {
+					first = c
+				}
+				last = c
+			}
+		}
+		if first != last && last.SendSID == first.SendSID {
+			w.fail("rendezvous/not-moved-after-pairing",
+				"after the version-2 pairing the client still meets the server on the passphrase-derived streams")
+			return
+		}
+		if first != last {
+			w.reached["moved-after-pairing"] = true
+		}
+	}
+	w.reached["all-sessions-mirrored"] = true
 }
